@@ -70,7 +70,9 @@ func argDomain(t reflect.Type, variadic bool, method string, wild bool) []argVal
 		}
 		return out
 	case variadic && t.Elem() == emptyIface:
-		return []argVal{val("", []interface{}{}), val("7", []interface{}{7})}
+		return []argVal{val("", []interface{}{}), val("7", []interface{}{7}), {"Formatter", func(count *int) reflect.Value {
+			return reflect.ValueOf([]interface{}{c14Stringer{count}})
+		}}}
 	case variadic:
 		return nil
 	case t == codeType:
@@ -108,6 +110,8 @@ func argDomain(t reflect.Type, variadic bool, method string, wild bool) []argVal
 	case t == stmtFuncType:
 		return []argVal{{"func(s){s.Id(d)}", func(count *int) reflect.Value {
 			return reflect.ValueOf(func(s *jen.Statement) { *count++; s.Id("d") })
+		}}, {"func(s){}", func(count *int) reflect.Value {
+			return reflect.ValueOf(func(s *jen.Statement) { *count++ })
 		}}}
 	case t == litFuncType:
 		return []argVal{{"func(){return 5}", func(count *int) reflect.Value {
@@ -141,6 +145,12 @@ func argDomain(t reflect.Type, variadic bool, method string, wild bool) []argVal
 	}
 	return nil
 }
+
+// c14Stringer is a format argument that formats itself (fmt.Formatter): user code run by whoever
+// formats the arguments; it counts its calls.
+type c14Stringer struct{ count *int }
+
+func (s c14Stringer) Format(f fmt.State, verb rune) { *s.count++; fmt.Fprint(f, "stringer") }
 
 // construct is one exported builder present as *Statement method.
 type c14Construct struct {
@@ -419,6 +429,14 @@ func c14One(c c14Construct, combo []int) (problems []string, evals int) {
 		if t.Kind() == reflect.Func {
 			hasCallback = true
 		}
+	}
+	if !hasCallback {
+		// arguments that call back into user code (a fmt.Stringer among format arguments)
+		probe := 0
+		ps := &jen.Statement{}
+		call(reflect.ValueOf(ps).MethodByName(c.name), c.args(combo, &probe), c.isVar)
+		jh.Raw(ps)
+		hasCallback = probe > 0
 	}
 	if hasCallback {
 		n := 0
